@@ -25,7 +25,10 @@ pub struct Dummy {
 
 pub type OptT = Option<(u32, Vec<u8>)>;
 
-pub const KINDS: &[&str] = &["string", "bytes", "bincode_dummy", "bincode_vec", "bincode_opt", "gzip", "zlib", "zstd", "lz4", "brotli"];
+#[derive(Debug, PartialEq, Serialize, Deserialize, Clone)]
+pub struct Ack;
+
+pub const KINDS: &[&str] = &["string", "bytes", "bincode_dummy", "bincode_vec", "bincode_opt", "bincode_unit", "gzip", "zlib", "zstd", "lz4", "brotli"];
 
 fn fnv(b: &[u8]) -> u64 {
     let mut h: u64 = 0xcbf29ce484222325;
@@ -68,6 +71,8 @@ fn valid_input(kind: &str, r: &mut Rng) -> (Vec<u8>, Option<Vec<u8>>) {
             let v: OptT = if r.chance(1, 3) { None } else { Some((r.next() as u32, payload)) };
             bincode::serialize(&v).unwrap()
         }
+        // values whose encoding is empty: (), a unit struct, a tuple of both
+        "bincode_unit" => bincode::serialize(&((), Ack)).unwrap(),
         "gzip" => deflate::DeflateComp::gzip().compress(Bytes::from(payload)).unwrap().to_vec(),
         "zlib" => deflate::DeflateComp::zlib().compress(Bytes::from(payload)).unwrap().to_vec(),
         "zstd" => zstd::ZstdComp::new().compress(Bytes::from(payload)).unwrap().to_vec(),
@@ -152,6 +157,7 @@ pub fn decode_one(kind: &str, input: &[u8]) -> String {
                     Some((a, b)) => format!("S {} {}", a, hex(&b)),
                 })
                 .map_err(|_| ()),
+            "bincode_unit" => BincodeCodec::<((), Ack)>::default().decode(&mut buf).map(|_| "U".to_string()).map_err(|_| ()),
             "gzip" => deflate::DeflateDecomp::gzip().decompress(Bytes::copy_from_slice(input)).map(|b| format!("{}:{:016x}", b.len(), fnv(&b))).map_err(|_| ()),
             "zlib" => deflate::DeflateDecomp::zlib().decompress(Bytes::copy_from_slice(input)).map(|b| format!("{}:{:016x}", b.len(), fnv(&b))).map_err(|_| ()),
             "zstd" => zstd::ZstdDecomp.decompress(Bytes::copy_from_slice(input)).map(|b| format!("{}:{:016x}", b.len(), fnv(&b))).map_err(|_| ()),
